@@ -1,4 +1,5 @@
 import Casket.Model.ProxyMsg
+import Casket.Model.Path
 /-
 C04 as an executable predicate over what was observed at the backend transport (request side)
 and at the client (response side).  Everything is stated per header name, declaratively:
@@ -102,12 +103,12 @@ def joinOneSlash (a b : Str) : Str :=
 
 def expectPath (t : URL) (without path : Str) : Str := joinOneSlash t.path (trimPrefix path without)
 
-/-- the encoded path: absent when neither side has one, else the join of the encoded forms
-(each falling back to the decoded form) -/
+/-- the encoded path: absent when neither side has one, else the join of the escaped forms
+(`EscapedPath()`: the RawPath when it still is an encoding of the Path, else the escaped Path) -/
 def expectRawPath (t : URL) (without : Str) (u : URL) : Str :=
   let raw1 := if u.rawPath != [] then trimPrefix u.rawPath without else []
   if raw1 == [] && t.rawPath == [] then []
-  else joinOneSlash (prefer t.rawPath t.path) (prefer raw1 (trimPrefix u.path without))
+  else joinOneSlash (escapedOf t.path t.rawPath) (escapedOf (trimPrefix u.path without) raw1)
 
 def expectQuery (t : URL) (q : Str) : Str :=
   if t.rawQuery == [] then q else if q == [] then t.rawQuery else t.rawQuery ++ [38] ++ q
@@ -175,6 +176,36 @@ def verdictReq (hop : List Str) (repl : Str → Str) (u : Upstream) (r o : Reque
     match (reqKeys hop u r o).find? (fun k => o.header.vals k != expectReqVals hop repl u r k) with
     | some k => "bad:" ++ reqHeaderClass hop u r k ++ ":" ++ String.ofList (k.map fun c => Char.ofNat c.toNat)
     | none => "ok"
+
+/-! ### the encoded path names the same path as the decoded one -/
+
+/-- `raw` is absent, or an encoding of `path` (net/url: `unescape(RawPath) = Path`) -/
+def rawOK (path raw : Str) : Bool := raw == [] || Casket.Path.unescape false raw == some path
+
+/-- what net/http and url.Parse guarantee about the URLs the proxy starts from -/
+def inputsConsistent (t u : URL) : Bool := rawOK t.path t.rawPath && rawOK u.path u.rawPath
+
+/-- the request path after `without` has been trimmed from Path and from RawPath (each on its own) -/
+def trimmedPath (u : Upstream) (r : Request) : Str := trimPrefix r.url.path u.without
+def trimmedRaw (u : Upstream) (r : Request) : Str :=
+  if r.url.rawPath != [] then trimPrefix r.url.rawPath u.without else []
+
+/-- At the joint between base path and request path the encoded forms have a slash exactly where
+the decoded forms have one (no `%2F` right at the joint), and the encoded request part is empty
+exactly when the decoded one is. -/
+def jointAgree (u : Upstream) (r : Request) : Bool :=
+  endsWithSlash (escapedOf u.target.path u.target.rawPath) == endsWithSlash u.target.path &&
+  startsWithSlash (escapedOf (trimmedPath u r) (trimmedRaw u r)) == startsWithSlash (trimmedPath u r) &&
+  ((escapedOf (trimmedPath u r) (trimmedRaw u r) == []) == (trimmedPath u r == []))
+
+/-- Whenever the outgoing RawPath is set it must decode to the outgoing Path; otherwise net/url
+discards it when the request is written and the client's spelling of the path (e.g. an escaped
+slash) is lost although the configuration did not ask for that. -/
+def verdictRawPath (u : Upstream) (r o : Request) : String :=
+  if inputsConsistent u.target r.url && !rawOK o.url.path o.url.rawPath then
+    if jointAgree u r then "bad:rawpath-inconsistent:the encoded path sent to the backend does not decode to the path"
+    else "bad:rawpath-joint-escaped-slash:an escaped slash at the joint of base path and request path, the encoded path does not decode to the path"
+  else "ok"
 
 /-! ### response side -/
 
